@@ -7,6 +7,7 @@ usage: python -m harness.drivers.d_fault engine IN.ndjson OUT.ndjson
 """
 import gc, json, os, sys, multiprocessing as mp
 
+from harness.drivers import pmap
 import optree
 from harness import vuniv as U
 
@@ -284,8 +285,8 @@ def main():
     if mode == 'engine':
         inp, outp = sys.argv[2], sys.argv[3]
         lines = list(open(inp))
-        with mp.Pool(int(os.environ.get('VERIF_PROCS', '16')), initializer=U.setup_world) as pool, open(outp, 'w') as fh:
-            for res in pool.imap(engine_work, lines, chunksize=8):
+        with open(outp, 'w') as fh:
+            for res in pmap(engine_work, lines, init=U.setup_world, chunksize=8):
                 for c in res:
                     fh.write(c + '\n')
     else:
